@@ -23,6 +23,24 @@ def nontrivial(s):
     return s["ip4opts"] != "none" or s["ext"] != "none" or s["tcpopts"] != "none" or s["link"] != "eth" or s["pay"] in ("ones", "zeros", "carry", "huge", "empty", "one")
 
 
+def lazy_histories():
+    """Histories in which the driver serialises only at "ser": an entry is replaced by one of the same size (and one of another
+    size) between two serialisations, with and without a neighbour - what a layer caches while serialising must not go stale."""
+    sizes = {"tcp": [0, 4, 7], "ip4": [0, 4, 7], "icmp6": [6, 14], "dhcp": [1, 8, 9], "dhcp6": [1, 8, 9], "dot11": [1, 8, 9]}
+    A = lambda c, s: {"op": "add", "code": c, "size": s, "spoof": -1}
+    R = lambda c: {"op": "remove", "code": c, "size": 0, "spoof": -1}
+    S = {"op": "ser", "code": 0, "size": 0, "spoof": -1}
+    out = []
+    for k, ss in sizes.items():
+        for s1 in ss:
+            for s2 in ss:
+                for c in (0, 1):
+                    out.append({"kind": k, "lazy": True, "ops": [A(c, s1), S, R(c), A(c, s2), S]})
+                    out.append({"kind": k, "lazy": True, "ops": [A(c, s1), A(1 - c, s2), S, R(c), A(c, s1), S, R(1 - c), S]})
+                    out.append({"kind": k, "lazy": True, "ops": [A(c, s1), S, A(1 - c, s2), R(c), S, A(c, s1), S]})
+    return out
+
+
 def run(prop, tier, extra=None):
     t0 = time.time()
     quick = tier == "quick"
@@ -54,6 +72,7 @@ def run(prop, tier, extra=None):
         for s in hist:
             uh[vlib.canon_hash(s)] = s
         hist = sorted(uh.values(), key=vlib.canon_hash)
+        hist += lazy_histories()
         p2 = vlib.Pipeline(prop, "containers", "wire/ContainerTrace", "ContainerTrace_%s.cfg" % prop)
         for i in range(0, len(hist), 40000):
             p2.push(hist[i:i + 40000], "c%d" % (i // 40000), timeout=3000)
@@ -73,7 +92,7 @@ def run(prop, tier, extra=None):
                                                              "lenattr": (rec or {}).get("lenattr"), "next": (rec or {}).get("next"),
                                                              "unaligned": (rec or {}).get("unaligned")})
         st2.update({"catalogue_compositions": len({s["id"] for s in cat}), "catalogue_packets": len(cat), "catalogue_replay": p3.stats,
-               "catalogue_rule": "84 API-built compositions (51 catalogue entries + 33 extras: IPv4 first fragments with transport headers, "
+               "catalogue_rule": "87 API-built compositions (51 catalogue entries + 36 extras: IPv4 first fragments with transport headers, "
                                  "PPPoE/MPLS/EAPOL below VLAN tags, AH in IPv4/IPv6, ICMP/ICMPv6 errors with and without RFC 4884 length and "
                                  "extension structures around the 128-octet boundary, RadioTap with FCS, loopback/SLL families, 802.3+SNAP/STP, "
                                  "tunnels), each with %d seeded value sets, read by the TLA+ dissector Stack2 from 8 entry points (C05) / judged on size-exactness "
